@@ -187,30 +187,44 @@ func devMajorMinor(rdev uint64) (major, minor uint32) {
 
 
 func getXattrs(filename string) map[string]string {
-	namebuf := make([]byte, 256)
-	sz, err := unix.Listxattr(filename, namebuf)
-	if sz > cap(namebuf) {
-		namebuf = make([]byte, sz+1)
-		sz, err = unix.Listxattr(filename, namebuf)
-	}
+	namebuf, err := readXattrData(func (buf []byte) (int, error) {
+		return unix.Listxattr(filename, buf)
+	})
 	if err != nil {
 		return nil
 	}
 	xattrs := map[string]string{}
-	value := make([]byte, 1024)
-	for _, nm := range bytes.Split(namebuf[:sz], []byte{0}) {
-		name := string(nm)
-		sz, err := unix.Getxattr(filename, name, value)
-		if sz > cap(value) {
-			value = make([]byte, sz+1)
-			sz, err = unix.Getxattr(filename, name, value)
+	for _, nm := range bytes.Split(namebuf, []byte{0}) {
+		if len(nm) == 0 {
+			continue
 		}
+		name := string(nm)
+		value, err := readXattrData(func (buf []byte) (int, error) {
+			return unix.Getxattr(filename, name, buf)
+		})
 		if err != nil {
 			continue
 		}
-		xattrs[name] = string(value[:sz])
+		xattrs[name] = string(value)
 	}
 	return xattrs
+}
+
+
+// Calls reader with ever larger buffers until the attribute data fits (the kernel answers
+// ERANGE when the buffer is too small; attribute data is at most 64 KiB)
+func readXattrData(reader func ([]byte) (int, error)) ([]byte, error) {
+	for size := 1024; ; size *= 4 {
+		buf := make([]byte, size)
+		sz, err := reader(buf)
+		if err == unix.ERANGE && size < 1 << 20 {
+			continue
+		}
+		if err != nil {
+			return nil, err
+		}
+		return buf[:sz], nil
+	}
 }
 
 
